@@ -264,6 +264,7 @@ type E2EOpts struct {
 	Hists int
 	Steps int
 	Dir   string
+	Big   bool // thousand-point batches (the API takes 10000 points per request), per-shard maximum 3000
 }
 
 var errHang = errors.New("request did not return")
@@ -277,6 +278,7 @@ type hist struct {
 	plans map[string]models.UserPlan
 	known map[string][]uuid.UUID // user/col -> ids inserted so far (for deliberate re-inserts)
 	seq   int
+	big   bool
 }
 
 var colPool = []string{"c1", "c2", "c3", "c4"}
@@ -404,7 +406,9 @@ func RunE2E(tw *trace.Writer, o E2EOpts) error {
 		}
 		maxC := []int64{1, 2, 3, 5}[rng.Intn(4)]
 		maxZ := int64(1 << 30)
-		if hi%3 == 2 {
+		if o.Big {
+			maxC = 3000
+		} else if hi%3 == 2 {
 			// smaller than a shard file after its first insert: every request sees
 			// the existing shards as full by size and opens new ones
 			maxZ = 20000
@@ -422,11 +426,16 @@ func RunE2E(tw *trace.Writer, o E2EOpts) error {
 			return fmt.Errorf("new node: %w", err)
 		}
 		h := &hist{hang: o.Hang, tw: tw, rng: rng, node: node, users: []string{"al", "alice"},
-			plans: map[string]models.UserPlan{}, known: map[string][]uuid.UUID{}}
+			plans: map[string]models.UserPlan{}, known: map[string][]uuid.UUID{}, big: o.Big}
 		for _, u := range h.users {
 			h.plans[u] = models.UserPlan{Name: "T", MaxCollections: 1 + rng.Intn(3),
 				MaxCollectionPointCount: int64(3 + rng.Intn(18)), MaxPointSize: 100000,
 				ShardBackupFrequency: 3600, ShardBackupCount: 1}
+			if o.Big {
+				p := h.plans[u]
+				p.MaxCollectionPointCount = 1000000
+				h.plans[u] = p
+			}
 		}
 		tw.Emit("Node", M{"hist": hi, "maxC": maxC, "maxZ": maxZ, "users": h.users})
 		for s := 0; s < o.Steps; s++ {
@@ -455,7 +464,7 @@ func (h *hist) step() error {
 	plan := h.plans[u]
 	r := h.rng.Intn(100)
 	switch {
-	case r < 8:
+	case r < 8 && !h.big:
 		// the user's plan changes (also below what is already used)
 		plan.MaxCollections = h.rng.Intn(4)
 		plan.MaxCollectionPointCount = int64(h.rng.Intn(26))
@@ -535,7 +544,10 @@ func (h *hist) insert(u, c string) error {
 	if n < 0 {
 		n = 1
 	}
-	if left <= 0 && h.rng.Intn(3) > 0 {
+	if h.big {
+		n = 1100 + h.rng.Intn(1500)
+	}
+	if !h.big && left <= 0 && h.rng.Intn(3) > 0 {
 		// the collection is at its quota: mostly do something else
 		if h.rng.Intn(2) == 0 {
 			return h.deleteCol(u, col)
@@ -551,7 +563,15 @@ func (h *hist) insert(u, c string) error {
 	fresh := []uuid.UUID{}
 	for i := 0; i < n; i++ {
 		var id uuid.UUID
-		switch x := h.rng.Intn(12); {
+		x := h.rng.Intn(12)
+		if h.big {
+			// one stored id somewhere in every other batch, the rest new
+			x = 5
+			if i == n/2 && len(h.known[key])%2 == 1 {
+				x = 0
+			}
+		}
+		switch {
 		case x == 0 && len(h.known[key]) > 0: // an id the collection already holds
 			id = h.known[key][h.rng.Intn(len(h.known[key]))]
 		case x == 1 && len(points) > 0: // an id twice in the batch
